@@ -32,6 +32,26 @@ type opGen struct {
 	ndefer  int
 	labels  int
 	fields  int
+	// forceAlias: inside the fragments of an abstract selection every field gets a response key of
+	// its own (or one that encodes its exact type), so that fragments on different member types can
+	// never conflict (GraphQL "same response shape" rule)
+	forceAlias bool
+	noShared   int
+	// shared: on one parent type a shared response key always denotes the same field (selections of
+	// repeated fields are merged, so this has to hold for the whole operation)
+	shared map[string]string
+}
+
+func (g *opGen) sharedFree(parent, key, field string) bool {
+	if g.shared == nil {
+		g.shared = map[string]string{}
+	}
+	k := parent + "|" + key
+	if cur, ok := g.shared[k]; ok {
+		return cur == field
+	}
+	g.shared[k] = field
+	return true
 }
 
 func (g *opGen) newVar(typ string, val any) string {
@@ -79,9 +99,130 @@ func (g *opGen) deferDir() string {
 	return "\x00 @defer" + args + "\x01"
 }
 
+// abstractSelection: __typename, id (interface only) and inline fragments on some member types.
+func (g *opGen) abstractSelection(t *fedType, depth int) string {
+	W := g.W
+	var parts []string
+	if W.Prob(0.6) {
+		parts = append(parts, "__typename")
+	}
+	if t.Abstract == "interface" && W.Prob(0.5) {
+		parts = append(parts, "id")
+	}
+	saved := g.forceAlias
+	g.forceAlias = true
+	for _, m := range t.Members {
+		if !W.Prob(0.65) {
+			continue
+		}
+		cond := m
+		parts = append(parts, "... on "+cond+g.deferDir()+" "+g.selection(m, depth-1))
+	}
+	g.forceAlias = saved
+	if depth >= 1 && W.Prob(0.3) {
+		parts = append(parts, g.mirror(t)...)
+	}
+	if len(parts) == 0 {
+		parts = append(parts, "__typename")
+	}
+	return "{ " + strings.Join(parts, " ") + " }"
+}
+
+// mirror adds, to two member types, a reference field of the same exact entity type under one
+// response key, with sub selections that need the same data of that entity: either the same leaf,
+// or a leaf in one and a field that @requires it in the other. Plans then contain the same entity
+// fetch below two type conditions (fetch de-duplication, merged fetch paths).
+func (g *opGen) mirror(t *fedType) []string {
+	s, W := g.s, g.W
+	type cand struct {
+		m1, m2 string
+		f1, f2 *fedField
+	}
+	var cands []cand
+	for i, m1 := range t.Members {
+		for _, m2 := range t.Members[i+1:] {
+			for _, f1 := range s.typ(m1).Fields {
+				tt := s.typ(f1.Type.Name)
+				if tt == nil || !tt.Entity {
+					continue
+				}
+				for _, f2 := range s.typ(m2).Fields {
+					if f2.Type == f1.Type {
+						cands = append(cands, cand{m1, m2, f1, f2})
+					}
+				}
+			}
+		}
+	}
+	if len(cands) == 0 {
+		return nil
+	}
+	c := cands[W.Intn(len(cands))]
+	key := sharedKey(c.f1.Type)
+	if c.f1.Name == c.f2.Name && s.safeName(c.f1.Name) {
+		key = ""
+	} else if !g.sharedFree(c.m1, key, c.f1.Name) || !g.sharedFree(c.m2, key, c.f2.Name) {
+		return nil
+	}
+	tgt := s.typ(c.f1.Type.Name)
+	var leaves, requiring []*fedField
+	for _, f := range tgt.Fields {
+		if s.typ(f.Type.Name) == nil {
+			leaves = append(leaves, f)
+			if f.Requires != "" {
+				requiring = append(requiring, f)
+			}
+		}
+	}
+	if len(leaves) == 0 {
+		return nil
+	}
+	sel1, sel2 := "", ""
+	if len(requiring) > 0 && W.Prob(0.6) {
+		q := requiring[W.Intn(len(requiring))]
+		sel1, sel2 = "{ "+q.Requires+" }", "{ "+q.Name+" }"
+		if W.Prob(0.5) {
+			sel1, sel2 = sel2, sel1
+		}
+	} else {
+		x := leaves[W.Intn(len(leaves))]
+		sel1 = "{ " + x.Name + " }"
+		sel2 = sel1
+		if W.Prob(0.3) {
+			sel2 = "{ id " + x.Name + " }"
+		}
+	}
+	g.fields += 2
+	k := ""
+	if key != "" {
+		k = key + ": "
+	}
+	return []string{
+		"... on " + c.m1 + " { " + k + c.f1.Name + " " + sel1 + " }",
+		"... on " + c.m2 + " { " + k + c.f2.Name + " " + sel2 + " }",
+	}
+}
+
+func sharedKey(t gTypeRef) string {
+	k := "o_" + t.Name
+	if t.List {
+		k += "_l"
+		if t.ItemNonNull {
+			k += "i"
+		}
+	}
+	if t.NonNull {
+		k += "_n"
+	}
+	return k
+}
+
 func (g *opGen) selection(typeName string, depth int) string {
 	s, W := g.s, g.W
 	t := s.typ(typeName)
+	if t.Abstract != "" {
+		return g.abstractSelection(t, depth)
+	}
 	var parts []string
 	n := 1 + W.Weighted([]int{2, 3, 3, 2})
 	if t.Entity && W.Prob(0.6) {
@@ -93,18 +234,42 @@ func (g *opGen) selection(typeName string, depth int) string {
 	for i := 0; i < n; i++ {
 		f := t.Fields[W.Intn(len(t.Fields))]
 		g.fields++
-		sub := ""
-		if tt := s.typ(f.Type.Name); tt != nil {
-			if depth <= 0 {
-				continue
-			}
-			sub = " " + g.selection(tt.Name, depth-1)
+		tt := s.typ(f.Type.Name)
+		if tt != nil && depth <= 0 {
+			continue
 		}
 		alias := ""
-		if W.Prob(0.12) {
+		merged := false // the sub selection can be merged with that of another fragment's field
+		if g.forceAlias {
+			// Inside fragments of an abstract selection: a field whose name means the same type
+			// wherever it exists may stay unaliased; composite fields of the same exact type may share
+			// a response key across fragments; everything else gets a key of its own. Below a field
+			// that can be merged, shared keys are off (two different fields of one parent type must
+			// not end up under one key).
+			if g.s.safeName(f.Name) && W.Prob(0.5) {
+				merged = true
+			} else if k := sharedKey(f.Type); tt != nil && g.sharedFree(typeName, k, f.Name) && W.Prob(0.4) {
+				alias = k + ": "
+				merged = true
+			} else {
+				g.alias++
+				alias = fmt.Sprintf("a%d: ", g.alias)
+			}
+		} else if W.Prob(0.12) {
 			g.alias++
 			alias = fmt.Sprintf("a%d: ", g.alias)
 		}
+		sub := ""
+		if tt != nil {
+			// below a field of a concrete type every selection has that one parent type: fields of
+			// the same name are the same field, no aliasing discipline is needed (an abstract type
+			// switches it on again for its fragments)
+			saved := g.forceAlias
+			g.forceAlias = false
+			sub = " " + g.selection(tt.Name, depth-1)
+			g.forceAlias = saved
+		}
+		_ = merged
 		parts = append(parts, alias+f.Name+g.directive()+sub)
 	}
 	if len(parts) == 0 || (len(parts) == 1 && strings.Contains(parts[0], "@")) {
